@@ -491,6 +491,11 @@ func (s *socket) MaybeUpgrade(transport transports.Transport) {
 	transport.Once("error", onError)
 
 	s.Once("close", onClose)
+	// the session may have closed before this listener was there (it was looked
+	// up by the server some statements ago): end the attempt now
+	if s.ReadyState() == "closed" {
+		onError("socket closed")
+	}
 }
 
 // Clears listeners and timers associated with current transport.
